@@ -1,5 +1,6 @@
 import HapVerif.Model.C06
 import HapVerif.Drv.C03
+import HapVerif.Drv.C06Ann
 /-!
 Driver of C06.  `C06 world|hist <ops...> => <verdict> <balances>`; verdict = `same` or
 `diff:<class>:<item>` (first difference between two runs of the implementation on the same case),
@@ -62,6 +63,7 @@ def handle (args : List String) (impl : String) : Verdict :=
   match args with
   | "world" :: toks => handleCase toks impl
   | "hist" :: toks => handleCase toks impl
+  | "ann" :: toks => C06Ann.handle toks impl
   | _ => bad "C06"
 
 end HapVerif.C06
